@@ -241,7 +241,7 @@ def run_encode(E: EN.Engine, prog: CI.Program, msg: L.Message, big: bool, label=
 
 
 def run_decode(E: EN.Engine, prog: CI.Program, msg: L.Message, big: bool, label="decode",
-               sender: Optional[L.Message] = None, project=None):
+               sender: Optional[L.Message] = None, project=None, dirty_target: bool = False):
     """Decode<M>(m, s) with *m zeroed and s the reference encoding of an in-range value reconstructs exactly that value
     (sign-extended in its storage type); s is not written, nothing outside *m and s[0..nbytes) is touched."""
     it = CI.Interp(prog, big=big, oblige=_collector(E))
@@ -258,6 +258,12 @@ def run_decode(E: EN.Engine, prog: CI.Program, msg: L.Message, big: bool, label=
     bs = [b.as_long() if z3.is_bv_value(b) else b for b in L.bytes_of(L.enc(src, v), n)]
     s = it.alloc("s", n, bs, kind="arg")
     m = it.alloc("*m", it.T.sizeof(st), 0, kind="arg")
+    if dirty_target:
+        # optimization-mode decoders establish their own zero baseline (memset / first write by assignment): the struct may hold
+        # anything before the call
+        E.run_n = getattr(E, "run_n", 0) + 1
+        it.store_cells(m, 0, [z3.BitVec("dirty%d.m[%d]" % (E.run_n, k), 8) for k in range(it.T.sizeof(st))])
+        m.writes.clear()
     E.cover(label + "/requires")
     it.frames.append({})
     try:
